@@ -1,0 +1,9 @@
+//go:build verif
+
+package neo4j
+
+// VerifRewriteQuery exposes the rewrite that every query text passes through before it is sent to Neo4j
+// (transaction.go calls rewriteQuery) to the verification harness. Compiled only with the verif build tag.
+func VerifRewriteQuery(query string, parameters map[string]any) (string, map[string]any, error) {
+	return rewriteQuery(query, parameters)
+}
